@@ -62,6 +62,16 @@ func (e *e1Engine) matchIns(ins ssa.Instruction, re string) bool {
 	case strings.HasPrefix(re, "store:"):
 		st, ok := ins.(*ssa.Store)
 		return ok && e.re(re[len("store:"):]).MatchString(desc(st.Addr, maxDepth)+" = "+desc(st.Val, maxDepth))
+	case strings.HasPrefix(re, "ret:"):
+		r, ok := ins.(*ssa.Return)
+		if !ok {
+			return false
+		}
+		var parts []string
+		for i := range r.Results {
+			parts = append(parts, desc(retOperand(r, i), maxDepth))
+		}
+		return e.re(re[len("ret:"):]).MatchString(strings.Join(parts, " ; "))
 	case strings.HasPrefix(re, "mapset:"):
 		mu, ok := ins.(*ssa.MapUpdate)
 		return ok && e.re(re[len("mapset:"):]).MatchString(desc(mu.Map, maxDepth)+"["+desc(mu.Key, maxDepth)+"] = "+desc(mu.Value, maxDepth))
